@@ -12,6 +12,8 @@ CLAIMS = {
          "Coq kernel; std Ipv4Addr/u32 from_str and BTreeMap are modelled (validated by lock-step only)."),
  "C10": ("proof", "Partition predicate proved for fragment(), pass-through, discard, and closure under arbitrary re-fragmentation chains; the same extracted predicate validates the implementation's fragments.",
          "Coq kernel; Message::cut abstracted to list split (C07); header serialisation not part of this model."),
+ "C11": ("proof", "Reassembly invariant proved: completion iff coverage, returned datagram = original for any multiset/order/duplicates/overlaps of pieces, isolation between buffer keys, epoch-guarded expiry across key reuse; tied to reassembly/*.rs by lock-step over whole event histories with an independent byte-map oracle.",
+         "Coq kernel; BinaryHeap and FxHashMap modelled (priority-queue lemmas proved for the concrete heap model); the tokio expiry timer is an event at arbitrary times."),
  "C12": ("proof", "Circular comparison primitives proved equal to the mathematical circular order for all pairs < 2^31 apart, mutually consistent and shift-invariant; TCB-level ISN equivariance: paired runs of the real Tcb with shifted ISNs (oracle) and lock-step of the TCB model; equivariance theorem over the model in progress.",
          "Coq kernel; hand model of modular_cmp.rs and tcb.rs tied by lock-step."),
  "C15": ("proof", "Address-generator specs (block/return/fetch), no-panic and the no-double-allocation history theorem proved for all op sequences; DHCP distinctness proved on a protocol model; generator tied to ip_generator.rs by lock-step; the DHCP protocol model is not yet tied to the code by full-stack runs (partial there).",
